@@ -9,7 +9,7 @@ RULE = ('real ipGenerator on net.ParseCIDR(a/len) for every prefix length 0..32 
         'octet crossings, unaligned, random from the seed): complete enumeration for len >= 20 (all bases), len 16-19 (8 bases; thorough all) '
         'and, thorough, len 12-15 (6 bases); first/last 4096 + count by draining for len 10-15 (4 bases; thorough also len 8-9 = full /8s); '
         'first 4096 then cancel for the rest; computeNetSz(-5..40); cancellation scenarios (prefix x channel cap/occupancy x receiver x '
-        'cancelled before / after the generator is stuck / never). distinct = distinct request lines; non-trivial = expected reply is not '
+        'cancelled before / after the generator is stuck / never); whole runs of the real autoDiscover over 6 lists of configured networks inside 127/8 (nested, same network number with different prefix lengths, repeated, adjacent, /31, /32) with every dial recorded by a wildcard listener, and with a context cancelled before the start / after 20 ms. distinct = distinct request lines; non-trivial = expected reply is not '
         '[] / 0 / blocked / panic')
 ASSUMPTIONS = ['hosts/gen (LLRP.Model.Discover) is a hand-written model of ipGenerator with the same bit operations; tied to discover.go by this differential run',
                'computeNetSz is the go2lean translation of the source (Gen.driver_computeNetSz); estimate_exact is stated about it',
@@ -92,6 +92,14 @@ def report(res, r, e, o):
         else:
             what = 'ipGenerator(%s) sent %s addresses, the network has %s usable host addresses' % (cidr, o, e)
         res.violation(key, what, 'input', True, case=[r], cidr=cidr, expected=[short(e, 2000)], observed=[short(o, 2000)])
+    elif verb == 'auto':
+        nets = ['%s/%s' % (fmt_ip(int(t.split('/')[0])), t.split('/')[1]) for t in parts[1:]]
+        what = ('autoDiscover over the configured networks %s %s' % (', '.join(nets), 'did not return' if o == 'blocked' else
+                'did not dial exactly the host addresses of every configured network:' + first_diff(e, o)))
+        res.violation('auto:' + ','.join(nets), what, 'input', True, case=[r], expected=[short(e, 2000)], observed=[short(o, 2000)])
+    elif verb == 'auto-cancelled':
+        res.violation('auto-cancelled:' + parts[1], 'autoDiscover whose context is cancelled (%s) did not return: %s' % (parts[1], o), 'input', True,
+                      case=[r], expected=[e], observed=[o])
     elif verb == 'netsz':
         key = 'netsz:%s' % parts[1]
         prop = 2 <= int(parts[1]) <= 32
